@@ -1,5 +1,6 @@
 (* Reader: the BufRead / Read / Write contracts as schedules, std's
-   read_until / read_exact / write_all transcribed over them, and
+   read_until / write_all transcribed over them (read_exact is kept as a
+   transcription of std; decoder.rs no longer calls it), and
    /repo/src/reader/decoder.rs (Decoder::new / read_bom / read_line /
    curr_line) plus the way /repo/src/decode.rs drives it (every read_line
    error is returned, the loop runs to EOF).  Definitions only; lemmas are in
@@ -106,7 +107,9 @@ Fixpoint read_until (fuel : nat) (d : Z) (r : reader) (buf : bytes) : io (bytes 
       end
   end.
 
-(* Read::read for a BufRead source: copy out of fill_buf, consume *)
+(* Read::read for a BufRead source: copy out of fill_buf, consume.  [read] and
+   [read_exact] transcribe std; since the repair of D6 Decoder::read_line no
+   longer calls read_exact (see [read_extra] below). *)
 Inductive rd := RdOk (b : bytes) | RdInt | RdErr (k : io_kind).
 Definition read (n : nat) (r : reader) : rd * reader :=
   match fill_buf r with
@@ -166,15 +169,34 @@ Definition ends_with_lf (b : bytes) : bool :=
 Definition curr_line (d : decoder) : io str :=
   io_bind (io_of_outcome (decode (enc d) (read_buf d))) (fun s => IoDone (trim_end s)).
 
-(* Decoder::read_line; [fuel] bounds the loops of read_until / read_exact *)
+(* the loop of Decoder::read_line that fetches the high byte of a UTF-16LE
+   line feed ([buf] is read_buf):
+     loop { match self.inner.fill_buf() {
+         Ok(&[byte, ..]) => { self.read_buf.push(byte); self.inner.consume(1); break }
+         Ok(_) => break,                  // the stream ended right after the b'\n'
+         Err(ref err) if err.kind() == ErrorKind::Interrupted => {}
+         Err(err) => return Err(err) } }
+   An empty fill_buf is EOF: the line is kept without the extra byte. *)
+Fixpoint read_extra (fuel : nat) (r : reader) (buf : bytes) : io (bytes * reader) :=
+  match fuel with
+  | O => IoFuel
+  | S f =>
+      match fill_buf r with
+      | (FbBuf (byte :: _), r') => IoDone (buf ++ [byte], consume 1 r')
+      | (FbBuf [], r') => IoDone (buf, r')
+      | (FbInt, r') => read_extra f r' buf
+      | (FbErr k, _) => IoErr k
+      end
+  end.
+
+(* Decoder::read_line; [fuel] bounds the loops of read_until / read_extra *)
 Definition read_line (fuel : nat) (d : decoder) : io (option str * decoder) :=
   io_bind (read_until fuel LF (inner d) []) (fun '(buf, r) =>
     match buf with
     | [] => IoDone (None, mkDecoder r [] (enc d))
     | _ :: _ =>
         io_bind
-          (if enc_is_le (enc d) && ends_with_lf buf then
-             io_bind (read_exact fuel 1 r []) (fun '(b, r') => IoDone (buf ++ b, r'))
+          (if enc_is_le (enc d) && ends_with_lf buf then read_extra fuel r buf
            else IoDone (buf, r))
           (fun '(buf', r') =>
              let d' := mkDecoder r' buf' (enc d) in
@@ -248,31 +270,31 @@ Fixpoint split_line (d : Z) (l : bytes) : bytes * bytes :=
   | x :: t => if x =? d then ([x], t) else let '(a, b) := split_line d t in (x :: a, b)
   end.
 
-(* the raw buffer of the next line and the unread remainder *)
-Definition next_raw (e : encoding) (b : bytes) : io (option (bytes * bytes)) :=
+(* the raw buffer of the next line and the unread remainder; in UTF-16LE the
+   byte after a 0x0A belongs to the line if there is one *)
+Definition next_raw (e : encoding) (b : bytes) : option (bytes * bytes) :=
   let '(l, r) := split_line LF b in
   match l with
-  | [] => IoDone None
+  | [] => None
   | _ :: _ =>
       if enc_is_le e && ends_with_lf l then
         match r with
-        | [] => IoErr UnexpectedEof
-        | y :: r' => IoDone (Some (l ++ [y], r'))
+        | [] => Some (l, [])
+        | y :: r' => Some (l ++ [y], r')
         end
-      else IoDone (Some (l, r))
+      else Some (l, r)
   end.
 
 Fixpoint lines_pure (n : nat) (e : encoding) (b : bytes) : io (list str) :=
   match n with
   | O => IoFuel
   | S m =>
-      io_bind (next_raw e b) (fun o =>
-        match o with
-        | None => IoDone []
-        | Some (l, r) =>
-            io_bind (io_of_outcome (decode e l)) (fun s =>
-              io_bind (lines_pure m e r) (fun ls => IoDone (trim_end s :: ls)))
-        end)
+      match next_raw e b with
+      | None => IoDone []
+      | Some (l, r) =>
+          io_bind (io_of_outcome (decode e l)) (fun s =>
+            io_bind (lines_pure m e r) (fun ls => IoDone (trim_end s :: ls)))
+      end
   end.
 
 (* what from_bytes makes of the bytes: a stream shorter than read_bom's minimum
